@@ -15,6 +15,8 @@ PROPS = [f'C{i:02d}' for i in range(1, 21)]
 
 
 def run_property(pid: str, tier: str, repo=None, replay=None, quiet=False) -> int:
+    from . import cfg as _cfg
+    _cfg._CACHE.clear()   # flow graphs are cached by syntax-tree node: a run on another tree starts empty (and frees the previous trees)
     ctx = Ctx(repo)
     chk = Check(pid, tier, ctx)
     mod = importlib.import_module(f'plumpy_sa.props.{pid.lower()}')
